@@ -38,7 +38,7 @@ def gen_and_replay(v, wd, ex, bind, pid, tier, rnd, scn, views, nrand, walk, dep
 def traces(v, wd, ex, bind, pid, rnd, n, views, ops, nshards=8, name="random-calls"):
     layout = pdu.field_widths(wd)
     cmds, evs = pdu.drive_independent(rnd, bind, layout, n, views, ops)
-    outs = ex.run(cmds)
+    outs = ex.run_robust(cmds)
     if len(outs) != len(cmds):
         raise Infra("executor died during the random driver (exit %s): %s" % (ex.returncode, ex.stderr[-500:]))
     done = pdu.finish_events(evs, outs, v, pid)
@@ -193,7 +193,7 @@ def c05(v, tier, seed):
     cmds_all, evs_all = [], []
     for i in range(nsh):
         cmds, evs = pdu.drive_histories(rnd, bind, layout, 12 if q else 300, 40, ALL_VIEWS)
-        outs = ex.run(cmds)
+        outs = ex.run_robust(cmds)
         done = pdu.finish_hist_events(evs, outs, v, "C05")
         shards.append(done)
         v.cov["evaluations"] += len(cmds)
@@ -266,7 +266,7 @@ def c06(v, tier, seed):
         v.cov.setdefault("replayed_transitions", 0); v.cov["replayed_transitions"] += len(vecs)
         if vecs: v.sample({"tlc_transition": vecs[len(vecs) // 2]})
     cmds, evs = can.drive(rnd, 6000 if q else 150000)
-    outs = ex.run(cmds)
+    outs = ex.run_robust(cmds)
     done = can.finish(evs, outs, v)
     v.cov["evaluations"] += len(cmds)
     cfgt = open(os.path.join(SPEC, "CanTrace.cfg")).read()
@@ -277,3 +277,126 @@ def c06(v, tier, seed):
                      "(create; copy/idfields/finalize composition; finalize alone up to the 9-bit limit); replayed on arenas ending exactly at the padded message "
                      "against a guard page; random payloads/identifiers validated by CanTrace")
     v.cov["distinct_nontrivial"] = v.cov.get("replayed_transitions", 0)
+
+
+def vss_gen(v, wd, ex, pid, rnd, scn, modes, types, nbg, lens=(12,), big=False, name=None, heap="8g"):
+    import vss
+    res = run_tlc("GenVss", vss.cfg(scn, modes, types, nbg, lens, big), wd, heap=heap, timeout=2400)
+    v.add_tlc(name or ("GenVss/" + scn), res)
+    if not res.ok: raise Infra("VssCodec violates its own theorem (%s):\n%s" % (scn, (res.violation or "")[-1500:]))
+    st = vss.replay(v, ex, res.emitted, rnd)
+    v.cov["evaluations"] += st["executed"]
+    v.cov.setdefault("replayed_transitions", 0); v.cov["replayed_transitions"] += len(res.emitted)
+    if res.emitted:
+        x = res.emitted[len(res.emitted) // 2]
+        v.sample({"tlc_transition": {k: (x[k] if len(str(x[k])) < 300 else str(x[k])[:300]) for k in x}})
+    return res
+
+
+def vss_traces(v, wd, ex, pid, rnd, n, ops, nshards, name):
+    import vss
+    cmds, evs = vss.drive(rnd, n, ops)
+    outs = ex.run_robust(cmds)
+    if len(outs) != len(cmds): raise Infra("executor died in the VSS driver: " + ex.stderr[-400:])
+    done = vss.finish(evs, outs, v)
+    v.cov["evaluations"] += len(cmds)
+    cfgt = open(os.path.join(SPEC, "VssTrace.cfg")).read()
+    pdu.validate_events(v, wd, pdu.shard(done, nshards), pid, name, module="VssTrace", cfg=cfgt,
+                        keyfn=lambda e: vss.vkey(e) + " kind=trace")
+    if done: v.sample({"trace_event": {k: done[0][k] for k in ("op", "arg", "n", "len", "bytes", "ret", "mode", "dt")}})
+
+
+@check("C07")
+def c07(v, tier, seed):
+    import vss
+    rnd = random.Random(seed)
+    wd, ex, bind = setup(v)
+    q = tier == "quick"
+    vss_gen(v, wd, ex, "C07", rnd, "encode", [0, 1, 2, 3], vss.ALL_TYPES + vss.RESERVED_TYPES, 1 if q else 3)
+    if not q:
+        vss_gen(v, wd, ex, "C07", rnd, "encode", [0, 1], [11, 128, 130, 134, 138, 139], 1, big=True, name="GenVss/encode-max-lengths", heap="16g")
+    vss_traces(v, wd, ex, "C07", rnd, 8000 if q else 200000, ("putpath", "putdata"), 6 if q else 16, "random-encodes")
+    v.cov["rule"] = ("TLC: 4 address modes x 24 datatypes + reserved codes x paths {0,1,4,13 bytes incl. NUL; 3 static ids} x per-type value patterns "
+                     "(extremes, distinct bytes, NaN payload, sign bit; 0,1,2,3,7 elements) x backgrounds x 2 buffer offsets: putpath then putdata replayed on "
+                     "arenas ending right behind the message; random paths/values validated by VssTrace")
+    v.cov["distinct_nontrivial"] = v.cov.get("replayed_transitions", 0)
+
+
+@check("C08")
+def c08(v, tier, seed):
+    import vss
+    rnd = random.Random(seed)
+    wd, ex, bind = setup(v)
+    q = tier == "quick"
+    vss_gen(v, wd, ex, "C08", rnd, "decode", [0, 1], vss.ALL_TYPES, 1 if q else 3)
+    if not q:
+        vss_gen(v, wd, ex, "C08", rnd, "decode", [0, 1], [11, 128, 130, 134, 138, 139], 1, big=True, name="GenVss/decode-max-lengths", heap="16g")
+    vss_traces(v, wd, ex, "C08", rnd, 8000 if q else 200000, ("calcpath", "getpath", "getdata"), 6 if q else 16, "random-decodes")
+    # identity on library-encoded messages: encode with the library, decode with the library, TLC validates both halves
+    cmds, evs = vss.drive(rnd, 2000 if q else 40000, ("putdata",))
+    outs = ex.run_robust(cmds)
+    enc = vss.finish(evs, outs, v)
+    cmds2, evs2 = [], []
+    for e in enc:
+        d = {"e": "vss", "op": "getdata", "arg": [], "n": 1, "base": e["base"], "pre": e["post"], "mode": e["mode"], "dt": e["dt"]}
+        cap = len(e["arg"])
+        cmds2.append(vss.cmd(dict(d, len=cap), "E", 0, cap=cap)); evs2.append((d, e["arg"]))
+    outs2 = ex.run_robust(cmds2)
+    dec = vss.finish([d for d, _ in evs2], outs2, v)
+    v.cov["evaluations"] += len(cmds) + len(cmds2)
+    cfgt = open(os.path.join(SPEC, "VssTrace.cfg")).read()
+    pdu.validate_events(v, wd, pdu.shard(dec, 4 if q else 16), "C08", "library-roundtrip", module="VssTrace", cfg=cfgt,
+                        keyfn=lambda e: vss.vkey(e) + " kind=trace")
+    v.cov["rule"] = ("TLC: every reference-encoded message of the C07 domain (DecodeInvertsEncode on the model) decoded by the library: calcpath, getpath, "
+                     "getdata with and without destination; message at the end of an exact-extent buffer (over-read faults), destinations of exactly the "
+                     "reported size against a guard page; library-encoded messages decoded again (round trip), all validated by VssTrace")
+    v.cov["distinct_nontrivial"] = v.cov.get("replayed_transitions", 0)
+
+
+@check("C09")
+def c09(v, tier, seed):
+    import vss
+    rnd = random.Random(seed)
+    wd, ex, bind = setup(v)
+    q = tier == "quick"
+    lens = list(range(12, 2045)) if not q else sorted(set(list(range(12, 140)) + list(range(140, 2045, 23)) + [1020, 1021, 1022, 1023, 1024, 1025, 2041, 2042, 2043, 2044]))
+    vss_gen(v, wd, ex, "C09", rnd, "pad", [0], [0], 2 if q else 3, lens=lens)
+    vss_traces(v, wd, ex, "C09", rnd, 4000 if q else 80000, ("pad",), 4 if q else 16, "random-pads")
+    # the length accessors carry all 512 values: dedicated + generic, through the PduStore machinery
+    res = run_tlc("GenLen512", "SPECIFICATION GSpec\nCONSTANT Buf = {1}\nCONSTRAINT Emit\nINVARIANT ReadBack\nCHECK_DEADLOCK FALSE\n", wd)
+    v.add_tlc("GenLen512", res)
+    if not res.ok: raise Infra("GenLen512: " + (res.violation or "")[-800:])
+    st = pdu.replay(v, ex, bind, res.emitted, "C09", tier, rnd, readback=True)
+    v.cov["evaluations"] += st["executed"]; v.cov["replayed_transitions"] = v.cov.get("replayed_transitions", 0) + len(res.emitted)
+    v.cov["rule"] = ("TLC: Pad for message lengths 12..2044 x backgrounds x 2 offsets (PadOK, FrameVss on the model) replayed on arenas with patterned pad bytes "
+                     "and trailing bytes; all 512 values of acf_msg_length through the dedicated and generic accessors; random lengths/contents validated by VssTrace")
+    v.cov["distinct_nontrivial"] = v.cov.get("replayed_transitions", 0)
+    v.cov["exhaustive"] = not q
+
+
+@check("C10")
+def c10(v, tier, seed):
+    import vss
+    rnd = random.Random(seed)
+    wd, ex, bind = setup(v)
+    q = tier == "quick"
+    cfg = "SPECIFICATION SSpec\nCONSTANTS\n  Buf = {1}\n  MaxN = %d\n  MaxL = %d\n  Extra = TRUE\nCONSTRAINT Emit\nINVARIANT RoundTrip\nINVARIANT TotalLen\nCHECK_DEADLOCK FALSE\n" % (3, 2 if q else 3)
+    res = run_tlc("GenStrArr", cfg, wd, heap="12g", timeout=2400)
+    v.add_tlc("GenStrArr", res)
+    if not res.ok: raise Infra("GenStrArr violates its own theorem:\n" + (res.violation or "")[-1500:])
+    st = vss.sa_replay(v, ex, res.emitted)
+    v.cov["evaluations"] += st["executed"]; v.cov["replayed_transitions"] = len(res.emitted)
+    x = next((e for e in res.emitted if e["op"] == "unpack" and e["req"] > e["count"] > 0), res.emitted[0])
+    v.sample({"tlc_transition": {k: (x[k] if len(str(x[k])) < 300 else "...") for k in x}})
+    cmds, evs = vss.sa_drive(rnd, 4000 if q else 100000)
+    outs = ex.run_robust(cmds)
+    done = vss.sa_finish(evs, outs, v)
+    v.cov["evaluations"] += len(cmds)
+    cfgt = open(os.path.join(SPEC, "VssTrace.cfg")).read()
+    pdu.validate_events(v, wd, pdu.shard(done, 4 if q else 16), "C10", "random-string-arrays", module="VssTrace", cfg=cfgt,
+                        keyfn=lambda e: "strarr op=%s kind=trace" % e.get("op"))
+    v.cov["rule"] = ("TLC: every list of 0..3 strings of length 0..%d over {NUL,'a'} plus special lists (255, 256 and 300 empty strings, 300- and 4000-byte strings): pack, count, "
+                     "unpack with requested counts {0,n-1,n,n+1,n+5} with/without destinations; sources and destinations are exact-extent buffers against guard pages; "
+                     "random lists validated by VssTrace" % (2 if q else 3))
+    v.cov["distinct_nontrivial"] = len(res.emitted)
+    v.cov["exhaustive"] = True
